@@ -121,6 +121,8 @@ type (
 	pendingMessage struct {
 		message *common.MessagePublication
 		height  uint64
+		// failingSince is the head at which the receipt lookup first failed transiently (0: never).
+		failingSince uint64
 	}
 )
 
@@ -468,7 +470,12 @@ func (w *Watcher) Run(ctx context.Context) error {
 							// give up. (This check must not run before the lookup above, or a head that
 							// advances by more than maxWaitConfirmations between two polls would drop a
 							// perfectly final message without ever asking for its receipt.)
-							if pLock.height+expectedConfirmations+w.maxWaitConfirmations <= blockNumberU {
+							// The window starts at the first failed attempt, not at the message's block: the
+							// message may only have become pending when the head was already far past it.
+							if pLock.failingSince == 0 {
+								pLock.failingSince = blockNumberU
+							}
+							if pLock.failingSince+w.maxWaitConfirmations <= blockNumberU {
 								logger.Info("observation timed out",
 									zap.Stringer("tx", pLock.message.TxHash),
 									zap.Stringer("blockhash", key.BlockHash),
